@@ -10,8 +10,12 @@
 #include <string.h>
 
 #define PATH "/vmem/c12.hdf"
-#define T1 100
-#define T2 101
+/* the two tags of the alphabet: (100,101), or - tag sets 1 and 2 - user-defined tags (0x8000 and above, where bit 0x4000 has
+   no meaning and no special variant exists) next to a low tag or next to each other */
+static uint16 g_t1 = 100, g_t2 = 101;
+#define T1 g_t1
+#define T2 g_t2
+static const uint16 TAGSET[3][2] = {{100, 101}, {100, 0x9000}, {0x8001, 0xC001}};
 #define MAXE 48
 
 enum { OP_PUT, OP_DEFINE, OP_DEL, OP_DUP, OP_REUSE, OP_NEWREF, OP_TAGNEWREF, OP_CACHE, OP_SYNC, OP_REOPEN, OP_HLCREATE, OP_DELMISSING };
@@ -521,9 +525,9 @@ enum_ops(mc_op *out, int max)
                 ADD(OP_PUT, T2, r2[i], 5, 0);
         if (!find(T1, 3))
             ADD(OP_DEFINE, T1, 3, 0, 0);
-        if (!find(T2, 2))
+        if (!find(T2, 2) && T2 < 0x8000)
             ADD(OP_HLCREATE, T2, 2, 0, 0);
-        if (!find(T1, 65534))
+        if (!find(T1, 65534) && T1 < 0x8000)
             ADD(OP_HLCREATE, T1, 65534, 0, 0);
         ADD(OP_NEWREF, 0, 0, 0, 0);
         ADD(OP_TAGNEWREF, T1, 0, 0, 0);
@@ -662,6 +666,8 @@ setup(int ndds, int cache, int start)
     memset(&M, 0, sizeof M);
     M.ndds  = ndds;
     M.start = start;
+    g_t1 = TAGSET[start / 10 % 3][0], g_t2 = TAGSET[start / 10 % 3][1];
+    start %= 10;
     vfs_remove_file(PATH);
     Hcache(CACHE_ALL_FILES, 1);
     fid = Hopen(PATH, DFACC_CREATE, (int16)ndds);
@@ -849,7 +855,7 @@ C12_main(const char *tier, const char *replay)
         return 0;
     }
     int thorough = strcmp(tier, "thorough") == 0;
-    static cfg_t cfgs[64];
+    static cfg_t cfgs[128];
     int          ncfg = 0;
     const int    ndds_q[] = {4, 5}, ndds_t[] = {4, 5, 6, 7, 16};
     const int   *nd       = thorough ? ndds_t : ndds_q;
@@ -864,12 +870,17 @@ C12_main(const char *tier, const char *replay)
         ncfg = 0;
         for (int i = 0; i < nnd; i++)
             for (int cache = 1; cache >= 0; cache--)
-                for (int start = 0; start < 5; start++) {
+                for (int sx = 0; sx < 9; sx++) {
+                    /* start states 0-4 with tags (100,101); 0 and 2 again with user-defined tags (tag sets 1 and 2: +10, +20) */
+                    static const int SX[9] = {0, 1, 2, 3, 4, 10, 12, 20, 22};
+                    int    start = SX[sx];
+                    if (!thorough && sx >= 5 && (i > 0 || (sx != 5 && sx != 8)))
+                        continue; /* quick: tag set 1 from the empty file, tag set 2 from the start state with refs in use, ndds 4 */
                     cfg_t *c = &cfgs[ncfg++];
                     c->ndds  = nd[i];
                     c->cache = cache;
                     c->start = start;
-                    c->depth = start == 0 ? depth : (depth > 2 ? depth - 1 : depth);
+                    c->depth = start % 10 == 0 ? depth : (depth > 2 ? depth - 1 : depth);
                     c->dev   = thorough ? 2 : 1;
                 }
         /* VERIF_SEED only rotates the scheduling order of configurations */
